@@ -28,7 +28,7 @@ from mirse.model_hash import oracle_of
 
 PROP = 'C17'
 
-OUTCOMES = ['ok', 'signature', 'expired', 'scope_region', 'arity', 'date', 'host', 'path', 'provider-sig', 'provider-foreign']
+OUTCOMES = ['ok', 'signature', 'sig-short', 'sig-long', 'sig-empty', 'expired', 'scope_region', 'arity', 'date', 'host', 'path', 'provider-sig', 'provider-foreign']
 
 
 def shapes(tier, seed):
@@ -40,6 +40,21 @@ def shapes(tier, seed):
     out.append(('fmt', 'keys'))
     out.append(('fmt', 'structs'))
     return out
+
+
+def retouch_signature(D, carrier, oc):
+    """Replace the presented (valid) signature by one of another length: truncated, extended, empty."""
+    good = D.good_sig
+    new = good[:63] if oc == 'sig-short' else good + '0' if oc == 'sig-long' else ''
+
+    def swap(es):
+        b = bytes(e.v for e in es)
+        i = b.find(good.encode())
+        return conc_bytes(b[:i] + new.encode() + b[i + 64:]) if i >= 0 else es
+    if carrier == 'header':
+        D.req.headers = [(n, swap(v) if n == 'authorization' else v) for n, v in D.req.headers]
+    else:
+        D.req.query = swap(D.req.query)
 
 
 def term_vars(t, acc, seen):
@@ -85,6 +100,8 @@ def run_shape(prog, shape, tier, seed, res):
             flags = {n: (z3.BoolVal(True) if n == oc else False) for n in names}
             key = [Int('u8', ctx.fresh_bv('SECRET_key%d' % i, 8)) for i in range(32)]
             D = Defective(m, ctx, carrier, flags, key=bytes(32))
+            if oc in ('sig-short', 'sig-long', 'sig-empty'):
+                retouch_signature(D, carrier, oc)
             # the provider hands out the *symbolic* key: a correct signature cannot be precomputed, so "ok" uses the concrete zero key
             if oc == 'ok':
                 pkey = conc_bytes(bytes(32))
@@ -215,6 +232,8 @@ def native_observables(rp, carrier, oc, level):
         names = flag_names(carrier)
         flags = {n: (z3.BoolVal(True) if n == oc else False) for n in names}
         D = Defective(m, ctx, carrier, flags)
+        if oc in ('sig-short', 'sig-long', 'sig-empty'):
+            retouch_signature(D, carrier, oc)
         return D.req.to_json(), D.good_sig
     o = []
     prog, _ = engine.load_program()
@@ -265,8 +284,18 @@ def replay_finding(rp, f):
         sent_hex = set(re.findall(r'[0-9a-f]{64}', sent)) | set(re.findall(r'[0-9a-f]{64}', bytes.fromhex(''.join(v for _, v in j['headers'])).decode('latin-1')))
         foreign_hex = [x for x in re.findall(r'[0-9a-f]{64}', blob.decode('latin-1')) if x not in sent_hex]
         lvl_ok = shape[3] == 'Debug'
-        # body/canonical-request hashes are public; only flag 64-hex strings that appear in a "expected" / "calculated" context
-        sig_leak = [x for x in foreign_hex if re.search(r"expected '%s'" % x, blob.decode('latin-1'))]
+        # the signature the server computes for this request: HMAC(kSigning, string-to-sign) with the string-to-sign taken from the crate
+        sig_leak = []
+        try:
+            can = rp.ask({'op': 'canonical', 'request': j, 'options': {'s3': False, 'url_encode_form': False},
+                          'requirements': {'kind': 'slice', 'always': ['X-Req'], 'if_in': [], 'prefixes': []}})
+            sts_hex = can.get('ok', {}).get('authenticator', {}).get('ok', {}).get('string_to_sign_hex')
+            if sts_hex:
+                expected = h(kg, bytes.fromhex(sts_hex)).hex()
+                if expected in blob.decode('latin-1') and expected not in sent_hex:
+                    sig_leak = [expected]
+        except Exception:
+            pass
         return bool(hits or (sig_leak and lvl_ok)), {'key_material_found': hits, 'expected_signature_found': sig_leak[:1]}
     r = rp.ask({'op': 'fmt', 'secret': AWS_SECRET, 'date': [2015, 8, 30], 'region': 'r', 'service': 's'})
     kd = h(b'AWS4' + AWS_SECRET.encode(), b'20150830')
@@ -295,6 +324,8 @@ def conformance(prog, rp, seed, tier):
                     names = flag_names(carrier)
                     flags = {nm: (z3.BoolVal(True) if nm == oc else False) for nm in names}
                     D = Defective(m, ctx, carrier, flags)
+                    if oc in ('sig-short', 'sig-long', 'sig-empty'):
+                        retouch_signature(D, carrier, oc)
                     if oc == 'provider-sig':
                         rfun = lambda mm, rq: err(BoxObj(sig_error('InvalidClientTokenId', 'no such key'), dyn='SignatureError'))
                     elif oc == 'provider-foreign':
@@ -319,7 +350,7 @@ def conformance(prog, rp, seed, tier):
                 nlogs = [t for t in texts[2:]] if len(texts) >= 2 else texts
                 mine_logs = ['%s %s' % (lvl.upper(), t) for lvl, t in logs]
                 nat_logs = [' '.join(x.split(' ')[:1] + x.split(' ')[2:]) for x in nlogs]      # drop the target column
-                if oc not in ('ok', 'signature') and (msg != (texts[0] if texts else '') or mine_logs != nat_logs):
+                if oc not in ('ok', 'signature', 'sig-short', 'sig-long', 'sig-empty') and (msg != (texts[0] if texts else '') or mine_logs != nat_logs):
                     mism.append({'case': [carrier, oc], 'mirse': [msg[:80], mine_logs], 'native': [texts[0][:80] if texts else None, nat_logs]})
     return n, mism
 
@@ -329,7 +360,7 @@ def describe(f):
 
 
 def bounds(tier):
-    return ('pipeline on both carriers for 10 outcomes (accepted; refused for wrong signature, expiry, scope, credential arity, date format, '
+    return ('pipeline on both carriers for 13 outcomes (accepted; refused for wrong signature of the right length, truncated / extended / empty signature, expiry, scope, credential arity, date format, '
             'unsigned host, bad path; provider SignatureError; provider foreign error) with the 32 signing-key bytes symbolic, logger at Debug '
             '(plus a Trace contrast run); Debug and Display of the five key types derived from a 40-byte symbolic secret, KeyTooLongError, '
             'GetSigningKeyRequest / Response, SigV4Authenticator (+Builder), SigV4AuthenticatorResponse, CanonicalRequest')
